@@ -16,17 +16,22 @@ import (
 // harness may block the call to control the schedule. Without the tag the
 // points are empty (verif_off.go).
 
-var verifHook func(point string, subject any)
+var verifHook atomic.Pointer[func(point string, subject any)]
 
-// SetVerifHook installs the hook function. It must be set before the server
-// is used and not changed while it runs.
+// SetVerifHook installs the hook function (nil removes it). The hook is read
+// atomically: a harness may replace it while goroutines of a server that is
+// shutting down are still passing their last points.
 func SetVerifHook(fn func(point string, subject any)) {
-	verifHook = fn
+	if fn == nil {
+		verifHook.Store(nil)
+		return
+	}
+	verifHook.Store(&fn)
 }
 
 func verifPoint(point string, subject any) {
-	if fn := verifHook; fn != nil {
-		fn(point, subject)
+	if fn := verifHook.Load(); fn != nil {
+		(*fn)(point, subject)
 	}
 }
 
